@@ -63,8 +63,48 @@ class C07:
             "distinct (S shape, variation parameters, interleaving hash)")
     assumptions = ["baton passing makes every step atomic between interception points: word-level data races and weak-memory effects are out of reach (DESIGN section 5)"]
 
+    def gen_text_case(self, rng):
+        """S from the collections / higher_order modes (record buffers, dynamic children): history variation only"""
+        import p_c10, p_c20, ho, coll
+        def one():
+            if rng.random() < 0.5:
+                c = p_c10.PROPERTY.gen(rng.getrandbits(48))
+                return ho.emit(ho.normalise(c["sc"]))
+            c = p_c20.PROPERTY.gen(rng.getrandbits(48))
+            return coll.emit(coll.normalise(c["sc"]))
+        return dict(kind="text", S=one(), others=[one() for _ in range(rng.randint(1, 5))])
+
+    def run_text(self, case, fresh):
+        text = case["S"]
+        ref = runner.run_fresh(text, san=self.san)
+        if not ref.ok:
+            return Outcome(harness_error="harness status=%s signal=%s timeout=%s" % (ref.status, ref.signal, ref.timeout), sample=text)
+        T = canon(ref.events)
+        srv = runner.Server(runner.ensure_built(self.san))
+        try:
+            for o in case.get("others", []):
+                r = srv.run("NOFORK\n" + o)
+                if r.timeout:
+                    return Outcome(harness_error="timeout in history scenario", sample=text)
+            r = srv.run("NOFORK\n" + text)
+        finally:
+            srv.kill()
+        v = None
+        if not r.ok:
+            v = ("crash_after_history", "status=%s signal=%s" % (r.status, r.signal))
+        else:
+            d = first_diff(T, canon(r.events))
+            if d:
+                v = ("history_dependence", "after %d earlier scenarios (dynamic children, record buffers) in the same process the trace differs: %s" % (len(case.get("others", [])), d))
+        stats = dict(variations=1, history_scenarios=len(case.get("others", [])), faults_fired={"F7_process_history": len(case.get("others", []))},
+                     probe_dynamic_children_or_record_buffers=1)
+        return Outcome(violation=dict(clause=v[0], detail=v[1]) if v else None, stats=stats, digest=ref.digest, nontrivial=len(T) > 10,
+                       sample=dict(scenario=text[:1500]), shape=runner.h64(text))
+
     def gen(self, seed):
         rng = random.Random(seed)
+        if rng.random() < 0.25:
+            return self.gen_text_case(rng)
         S = gen_stateful(rng)
         others = [gen_stateful(rng, size=rng.randint(2, 10)) for _ in range(rng.randint(1, 6))]
         fault = None
@@ -77,6 +117,8 @@ class C07:
                     clock=dict(seed=rng.getrandbits(32), stall_rate=rng.choice((0.05, 0.3)), stall_us=rng.choice((1000, 10 ** 7)), coarse=rng.choice((0, 1))))
 
     def run(self, case, fresh=False):
+        if case.get("kind") == "text":
+            return self.run_text(case, fresh)
         S = dataflow.normalise(case["S"])
         if case.get("fault"):
             S["faults"] = [tuple(case["fault"])]
@@ -209,6 +251,10 @@ class C07:
                        shape=runner.h64(dataflow.shape_key(S), case["repeat"], case["nconc"], ihash))
 
     def shrink(self, case):
+        if case.get("kind") == "text":
+            for i in range(len(case.get("others", []))):
+                yield dict(case, others=case["others"][:i] + case["others"][i + 1:])
+            return
         base = self.run(case)
         if not base.violation:
             return
